@@ -3,6 +3,8 @@ From Coq Require Import NArith ZArith List Bool.
 From AJ Require Import Model.Base Model.Value Model.Utf Model.NumParse Model.JsonParse Model.JsonSer.
 From AJ Require Import Spec.ParseSpec Proofs.Lex Proofs.StringRT Proofs.UtfProofs Proofs.GenAgree Proofs.JsonSerRT.
 From AJ Require Gen.Tables Gen.Config.
+From Coq Require Import Reals.
+From AJ Require Proofs.FloatRT Proofs.PrintErr.
 Local Open Scope Z_scope.
 
 (* the text denotes exactly the document: reading it back with the (proved RFC-complete) reader gives the
@@ -55,6 +57,23 @@ Theorem C02_source_agrees :
   Gen.Tables.gen_tab = tab_bytes.
 Proof. repeat split; try reflexivity. exact write_char_gen. Qed.
 Print Assumptions C02_source_agrees.
+
+(* documents with floating-point values: the compact and the pretty text are texts of the RFC grammar (every printed
+   number is a `jnumber`) that read back to a document of the same shape whose floating-point leaves are within C12's
+   printing tolerance (FloatRT.close); a zero of either sign prints as 0 *)
+Theorem C02_text_denotes_document_with_floats : forall cf, decode_unicode cf = true -> use_double cf = true ->
+  forall v, FloatRT.ser_ok_floats v -> forall L, (nesting v <= L)%nat ->
+  exists w, j_err (json_run cf None L (ser cf v)) = Ok /\
+            j_doc (json_run cf None L (ser cf v)) = w /\ FloatRT.close v w.
+Proof. exact FloatRT.json_roundtrip_close. Qed.
+Print Assumptions C02_text_denotes_document_with_floats.
+
+Theorem C02_pretty_denotes_same_with_floats : forall cf, decode_unicode cf = true -> use_double cf = true ->
+  forall v nest, FloatRT.ser_ok_floats v -> forall L, (nesting v <= L)%nat ->
+  exists w, j_err (json_run cf None L (ser_pretty cf nest v)) = Ok /\
+            j_doc (json_run cf None L (ser_pretty cf nest v)) = w /\ FloatRT.close v w.
+Proof. exact FloatRT.json_pretty_roundtrip_close. Qed.
+Print Assumptions C02_pretty_denotes_same_with_floats.
 
 Example C02_example :
   ser default_cfg (JObj [([97]%N, JArr [JInt (-5); JStr [34; 0; 200]%N; JNull]); ([], JBool true)])
